@@ -328,6 +328,38 @@ def run(tier, seed, replay=None):
                 if not (lo - 1e-9 * max(1, abs(lo)) <= val[c] <= hi + 1e-9 * max(1, abs(hi))):
                     V.failure({'what': 'evaluated point outside the reported bounding box', 'obj': O.spec_json(spec), 'params': tp,
                                'value': val.tolist(), 'bbox': [list(map(float, x)) for x in bb]})
+    # ---- the bounding box after the control points were edited in place (item assignment, slices, += on the array, project):
+    # a box queried before the edit says nothing about the object afterwards
+    for spec, _ in specs[: (60 if tier == 'quick' else 600)]:
+        if spec['rational'] or spec.get('intcps'):
+            continue                      # (integer arrays refuse the float edits below)
+        o = O.make_impl(spec)
+        case_ = {'obj': O.spec_json(spec)}
+        try:
+            holder = o.clone() if rng.random() < 0.3 else o          # (the box may also have been queried on the object this one was cloned from)
+            holder.bounding_box()
+            if holder is not o:
+                o = holder.clone()
+            how = rng.choice(['item', 'slice', 'array', 'flat'])
+            big = np.array([1000.0 + 7 * c_ for c_ in range(spec['dim'])])
+            if how == 'item':
+                o[tuple(rng.randrange(n_) for n_ in o.shape)] = big
+            elif how == 'slice':
+                o.controlpoints[..., 0] += 500.0
+            elif how == 'array':
+                o.controlpoints[(0,) * o.pardim] = big
+            else:
+                o[0] = big
+            case_['edit'] = how
+            bb = o.bounding_box()
+            nbb += 1
+            cps_ = np.asarray(o.controlpoints).reshape(-1, spec['dim'])
+            want = [(float(cps_[:, c_].min()), float(cps_[:, c_].max())) for c_ in range(spec['dim'])]
+            if any(abs(a_[0] - b_[0]) > 1e-9 * max(1, abs(b_[0])) or abs(a_[1] - b_[1]) > 1e-9 * max(1, abs(b_[1])) for a_, b_ in zip(bb, want)):
+                V.failure(dict(case_, what='bounding_box() after an in-place edit of the control points is not the box of the control points',
+                               bbox=[list(map(float, x_)) for x_ in bb], expected=want))
+        except Exception as e:  # noqa
+            V.failure(dict(case_, what='bounding_box after an in-place edit raised %s' % type(e).__name__))
     # ---- L1: the default control net and bounding_box() vs Model/DefaultObj.v
     dl = []
     for rat_, bsl, snap_, bb_ in default_l1:
